@@ -57,7 +57,9 @@ def sim_reachable(ctx):
                   "BaseStrategy.__init__", "Market.seconds_to_start", "Market.elapsed_seconds_closed",
                   "BaseOrder.elapsed_seconds", "BaseOrder.elapsed_seconds_created", "BaseOrder.elapsed_seconds_status_update",
                   "RunnerContext.placed_elapsed_seconds", "RunnerContext.reset_elapsed_seconds", "BaseEvent.elapsed_seconds",
-                  "Blotter.market_exposure", "Blotter.selection_exposure"):
+                  "Blotter.market_exposure", "Blotter.selection_exposure", "BaseOrderPackage.__init__",
+                  "BaseClient.__init__", "SimulatedClient.login", "SimulatedClient.update_account_details",
+                  "Trade.create_order_replacement", "Responses.__init__", "Market.__init__"):
             f = prog.func(q, required=False)
             if f is not None:
                 roots.append(f)
